@@ -59,12 +59,15 @@ form and first token = every plan of the tables; lossless-tokenizer domain guard
 alias / f-string-text / long-unpacking / dotted-__future__ snippets; deterministic all-snippets pass), C13 (re-listing after other
 calls), C15 (reference authoritative for lone CR; long codec names; files read by path), C16 (in-flight write during a diff_cache
 re-parse; eviction under real grammar hashes followed by a cross-grammar parse; version-sensitive contents), C17 (access and
-modification times drawn independently).  Round 4 (changes E/F; aimed at rare triggers) was missed more often at first - 17 of its
-first 24 changes - and led to: a deep-nesting generator and an end-of-file generator in the hostile mix, compositional generators for
+modification times drawn independently).  Round 4 (changes E/F; aimed at rare triggers) was missed more often at first - 25 of its 37 changes (two more were
+re-inventions of archived ones and are not kept twice) - and led to: a deep-nesting generator and an end-of-file generator in the hostile mix, compositional generators for
 binding targets and for yield/await positions, the line-coverage census of section 7.2c with triggers for every reachable unexecuted
 branch of errors.py, C04 line-ending styles / tail edits / crowded memory cache, C05 param grouping, C11 node-level leaf navigation,
 C13 sub-tree listings, C15 results edited by the caller, C16 epoch and future modification-time lines, C17 empty/half-written
-entries and a save in progress during clean-up, C19 deepest-leaf refactoring targets and pickling of queried trees.  One earlier
+entries and a save in progress during clean-up, C19 deepest-leaf refactoring targets and pickling of queried trees, C06 numbers from the lexical grammar and a layout-only notion of
+'out of domain', C07 near-miss texts (joined lines, stray keyword), C08 crossed-target rules / tiny alphabets / rule-name styles, C10
+control characters that are no line breaks, C12 identifiers from every corner of PEP 3131, C18 non-caching parses carrying the path
+of a cached file, structured f-strings and size-threshold tokens in every hostile mix.  One earlier
 change (C19-A) stopped being a defect after a later repair of `_create_params` and is kept for the record only.  Sub-agents also reported defects of the *unchanged* tree that their demonstrations had to
 avoid (list target in a comprehension with a walrus -> UnboundLocalError; f-string text equal to a keyword feeding syntax rules and
 is_generator(); comma lost when `def f(*,)` is rebuilt from its dump; a damaged pickle that still unpickles to a wrong tree -- the
